@@ -178,7 +178,7 @@ def unchanged(pre, post):
 # --------------------------------------------------------------------------
 # turning a model into a replayable play sequence (public API only)
 # --------------------------------------------------------------------------
-def synth_play(eng, neg, pre, card, seat, extra=None, max_trick=13, budget_s=240, min_trick=1):
+def synth_play(eng, neg, pre, card, seat, extra=None, max_trick=13, budget_s=900, min_trick=1):
     """Counterexample to induction -> a deal and a sequence of plays (public API) that reaches the offending
     pre-state.  For a concrete trick number T0 = 1, 2, ... the earlier tricks are 4(T0-1) symbolic cards whose winners
     (reference rule) must produce the pre-state's leader and counts; every hand is an explicit strictly increasing
@@ -237,7 +237,7 @@ def synth_play(eng, neg, pre, card, seat, extra=None, max_trick=13, budget_s=240
         for shape in shapes:
             eng.solver.push()
             try:
-                eng.solver.set('timeout', 60000 if T0 < 14 else 120000)
+                eng.solver.set('timeout', 180000)        # only ever run on a failing path; generous, the machine may be loaded
                 eng.solver.add(neg, *cons, *shape)
                 r = eng.solver.check()
                 if r == z3.sat:
